@@ -1041,7 +1041,8 @@ def _r13_declaration_cache_follows_repository(repo, rep):
                       if isinstance(st, ast.Assign) and
                       len(st.targets) == 1 and
                       isinstance(st.targets[0], ast.Subscript) and
-                      'qualcache' in norm(st.targets[0].value) and
+                      'qualcache' in norm(p_.resolve(
+                          st.targets[0].value)) and
                       norm(p_.resolve(st.value)) in decls | {
                           norm(p_.resolve(ast.parse(d, mode='eval').body))
                           for d in decls}]
